@@ -424,7 +424,7 @@ def run_one(ops, out, stats, hooks, cfg, rng=None, n_ops=0, seed_ops=None):
     focus = (2 if rng.random() < 0.5 else None) if rng is not None else None
     if rng is not None and not ops:
         ops += [list(o) for o in (seed_ops if seed_ops is not None else [["set_mref", "u", 11], ["set_mref", "r", 12]])]
-        ops += motif(rng)
+        ops += motif(rng, cfg=cfg)
     try:
         hooks.start(live, stats)
         k = 0
@@ -493,7 +493,7 @@ def run_struct(ctx, out, prop, cfg, hooks_factory, n_quick, n_thorough, rule, op
     out.coverage.update({"evaluations": len(cases) + stats["enumerated_scenarios"], "programs": len(seen),
                          "distinct_nontrivial": nontrivial,
                          "rule": rule + ("; plus, after each of %d motif programs, applicable single edits (thorough: all) "
-                                         "and sampled pairs, each followed by evaluating everything" % (len(MOTIFS) - 1)
+                                         "and sampled pairs, each followed by evaluating everything" % (len(motifs_for(cfg)) - 1)
                                          if enumerate_single else ""),
                          "samples": samples, "input_distribution": dict(stats),
                          "corpus_cases": len(cases) - n, "traces_validated_against_impl": len(cases)})
@@ -577,11 +577,28 @@ MOTIFS = [
 ]
 
 
-def motif(rng, weights=None):
+def motifs_for(cfg):
+    """the shared motif programs plus the ones a property adds for itself (cfg["extra_motifs"])"""
+    return MOTIFS + list((cfg or {}).get("extra_motifs", ()))
+
+
+def motif(rng, weights=None, cfg=None):
+    pool = motifs_for(cfg)
     if weights:
-        weights = list(weights) + [1] * (len(MOTIFS) - len(weights))
-    m = rng.choices(MOTIFS, weights)[0] if weights else rng.choice(MOTIFS)
+        weights = list(weights) + [1] * (len(pool) - len(weights))
+    m = rng.choices(pool, weights)[0] if weights else rng.choice(pool)
     return [list(o) for o in m]
+
+
+def uncached_variants(m):
+    """the motif program with one of its cells uncached from its creation on (assignments to that name
+    are dropped: an uncached cells refuses them)"""
+    out = []
+    for i, o in enumerate(m):
+        if o[0] == "new_cells":
+            out.append([list(x) for x in m[:i + 1]] + [["set_cached", o[1], o[2], 0]]
+                       + [list(x) for x in m[i + 1:] if not (x[0] == "set_value" and x[2] == o[2])])
+    return out
 
 
 def single_edits(live):
@@ -648,10 +665,18 @@ def single_edits(live):
 def enumerate_edits(ctx, out, prop, hooks_factory, cfg, stats, quick_per_motif=16, pairs_per_motif=6):
     """small-scope exhaustive part: after every motif program (everything evaluated), every
     applicable single edit (quick tier: a seeded sample), followed by evaluating everything
-    again; plus sampled pairs of edits.  Runs through the property's own hooks."""
-    for mi, m in enumerate(MOTIFS):
+    again; plus sampled pairs of edits.  Runs through the property's own hooks.
+    With cfg["uncached_variants"] every motif program is also run with each one of its cells uncached
+    (quick tier: the edits of cfg["enum_always"] plus a small sample, no pairs)."""
+    programs = []
+    for mi, m in enumerate(motifs_for(cfg)):
         if not m:
             continue
+        programs.append((mi, m, False))
+        if cfg.get("uncached_variants"):
+            for vi, v in enumerate(uncached_variants(m)):
+                programs.append(("%s.u%d" % (mi, vi), v, True))
+    for mi, m, variant in programs:
         prefix = [["set_mref", "u", 11], ["set_mref", "r", 12]] + [list(o) for o in m] + [["evalall"]]
         close_all()
         live = W.Live("M")
@@ -667,21 +692,26 @@ def enumerate_edits(ctx, out, prop, hooks_factory, cfg, stats, quick_per_motif=1
             close_all()
         if not ok:
             continue
+        if variant:
+            edits = [e for e in edits if e[0] != "set_value"]
         rng = ctx.rng("enum", prop, mi)
-        chosen = edits if ctx.tier == "thorough" else rng.sample(edits, min(len(edits), quick_per_motif))
+        per = quick_per_motif if not variant else 4
+        chosen = edits if ctx.tier == "thorough" else rng.sample(edits, min(len(edits), per))
         chosen = chosen + [e for e in edits if e[0] in cfg.get("enum_always", ()) and e not in chosen]
         seqs = [[e] for e in chosen]
-        for _ in range(pairs_per_motif * (4 if ctx.tier == "thorough" else 1)):
+        if variant:
+            stats["uncached_variant_programs"] += 1
+        for _ in range(0 if variant and ctx.tier != "thorough" else pairs_per_motif * (4 if ctx.tier == "thorough" else 1)):
             seqs.append([rng.choice(edits), ["evalall"], rng.choice(edits)])
         # structured pairs: a value edit / clear of one element, then a reference or base edit
         first = [e for e in edits if e[0] in ("set_value", "clear")]
         second = [e for e in edits if e[0] in ("set_ref", "del_ref", "set_mref", "remove_bases", "add_bases", "new_space")]
-        if first and second:
+        if first and second and not variant:
             allpairs = [[a, b] for a in first for b in second]
             for pr in (allpairs if ctx.tier == "thorough" else rng.sample(allpairs, min(len(allpairs), 10))):
                 seqs.append(pr)
         # a base edit followed by an unrelated structural edit (orders must survive graph copies)
-        for e in [e for e in edits if e[0] == "add_bases" and len(e[2]) == 2][:(99 if ctx.tier == "thorough" else 4)]:
+        for e in [e for e in edits if e[0] == "add_bases" and len(e[2]) == 2][:(99 if ctx.tier == "thorough" else 4 if not variant else 0)]:
             seqs.append([e, ["new_space", "-", "D" if not any(p == "D" for p in [x[2] for x in m if x[0] == "new_space"]) else "B", []]])
         for seq in seqs:
             ops = [list(o) for o in prefix] + [list(o) for o in seq] + [["evalall"]]
